@@ -32,6 +32,13 @@ E2E_TD = e2e('teardown', 'TestVerifE2ETeardown', nq=400, nt=2000)
 E2E_RULE = ('one case = one seeded scenario (options x initial TSNs x streams/policies x message sizes x per-packet fault schedule x heal time) run on a real '
             'association pair under testing/synctest virtual time; distinct by SHA-1 of its full API+wire log; non-trivial = at least 3 distinct event kinds and 5 events')
 
+PEND = {'test': 'TestVerifPendQ', 'comp': 'pend', 'quick': {'VERIF_N': 150, 'VERIF_OPS': 150},
+        'thorough': {'VERIF_N': 1500, 'VERIF_OPS': 300}, 'seeds': {'quick': 1, 'thorough': 8}}
+# queue.go (generic ring buffer under payloadQueue): model RingQ + FIFO-list predicate. Not a C17 matter; attach this
+# job to the properties served by the in-flight queue (C10/C15/C03) when their entries are added.
+RINGQ = {'test': 'TestVerifRingQ', 'comp': 'ringq', 'quick': {'VERIF_N': 100, 'VERIF_OPS': 300},
+         'thorough': {'VERIF_N': 1000, 'VERIF_OPS': 600}, 'seeds': {'quick': 1, 'thorough': 4}}
+
 PROPS = {
     'C05': {'jobs': [RQ]},
     'C16': {'jobs': [GENF, RQ]},
@@ -53,5 +60,15 @@ PROPS = {
         'Go runtime timer semantics (Reset/Stop/AfterFunc) are the hand-written environment GoTimer; sampled under testing/synctest, callbacks delayed only through the harness gate',
         'retry-budget, Karn and start-uses-manager-RTO are syntactic facts about call sites (argument / guard text), not data-flow',
         'association level (SACK immediacy, 200 ms bound per DATA packet, heartbeat round trip) is not part of this check yet',
+    ]},
+    'C17': {'jobs': [PEND], 'assumptions': [
+        'scheduler half only (pending_queue.go, scheduler factories); the negotiation half (chunk kinds, wrong-kind ABORT) is tied elsewhere',
+        'WFQ theorems are over exact rationals; the Go code uses float64 (identical for power-of-two weights; X compares the Float instance bit for bit)',
+        'a chunk pointer is never queued twice (fresh chunk per fragment), so chunkFinish[ptr] is modelled as a tag stored with the queue entry',
+        'WFQ bound: statement = L_i/w_i + L_j/w_j; proved = that bound when no push falls between a peek and the pop of the chunk it selected '
+        '(C17_wfq_fair_atomic_partial), and L_i/w_i + L_j/w_j + max_k L_k/w_k for every operation list (C17_wfq_fair_partial); the extra term is '
+        'needed (C17_wfq_stated_bound_fails_with_stale_peek, known finding PQ1); the predicate on implementation traces uses the proved bound '
+        'with delta = largest len/w of a chunk actually popped from a stale selection (0 in atomic traces)',
+        'not proved: a pop-count starvation bound for WFQ (only checked on traces, clause STARV); float64 rounding',
     ]},
 }
